@@ -431,7 +431,7 @@ func hasFid(fids []p9p.VerifFid, f p9p.Fid) bool {
 }
 
 func c20Ops(rich bool) func(key string, hist []FOp) []FOp {
-	nameLists := [][]string{{}, {"a"}, {"a", "b"}, {"x"}, {"a", "x"}, {"a", "."}, {"", "a"}, {"a", "..", "a"}, {".."}}
+	nameLists := [][]string{{}, {"a"}, {"a", "b"}, {"x"}, {"a", "x"}, {"a", "."}, {"", "a"}, {"a", "..", "a"}, {".."}, {"."}, {"a", ".."}, {""}}
 	if rich {
 		nameLists = append(nameLists, []string{"c"}, []string{"a", "d"}, []string{"a", "b", ".."}, []string{"a/b"}, []string{".", "."})
 	}
